@@ -12,6 +12,13 @@ import tempfile
 import numpy as np
 
 
+PROJ_CRS = {"utm55s_grs80": "+proj=utm +zone=55 +south +ellps=GRS80 +units=m +no_defs",
+            "tmerc_airy": "+proj=tmerc +lat_0=49 +lon_0=-2 +k=0.9996012717 +x_0=400000 +y_0=-100000 +ellps=airy +units=m +no_defs",
+            "laea_custom": "+proj=laea +lat_0=47 +lon_0=12 +x_0=4321000 +y_0=3210000 +ellps=GRS80 +units=m +no_defs"}
+# what a caller may have configured around the call (a usual cloud-access setting): the written file must be the same
+AMBIENT = [{}, {"GDAL_DISABLE_READDIR_ON_OPEN": "EMPTY_DIR"}]
+
+
 def _make(c):
     import xarray as xr
 
@@ -22,6 +29,8 @@ def _make(c):
     crs = c.get("crs", "32633")
     if crs == "4326":
         gb = GeoBox.from_bbox((14.0, 50.0 - h * 0.001, 14.0 + w * 0.001, 50.0), "epsg:4326", resolution=0.001)
+    elif crs in PROJ_CRS:
+        gb = GeoBox.from_bbox((500000, 6000000 - h * 10, 500000 + w * 10, 6000000), PROJ_CRS[crs], resolution=10)
     else:
         gb = GeoBox.from_bbox((500000, 6000000 - h * 10, 500000 + w * 10, 6000000), f"epsg:{crs}", resolution=10)
     if c["rot"]:
@@ -75,7 +84,9 @@ def execute(c):
         data = None
         try:
             import warnings
-            with warnings.catch_warnings():
+            import contextlib
+            amb = AMBIENT[(c["h"] + c["w"] + len(c["levels"]) + len(c["route"]) + (1 if c["dest"] == "mem" else 0)) % len(AMBIENT)]
+            with warnings.catch_warnings(), (rasterio.Env(**amb) if amb else contextlib.nullcontext()):
                 warnings.simplefilter("ignore")
                 target = ":mem:" if c["dest"] == "mem" else dst
                 if c["route"] == "layers":
@@ -113,7 +124,12 @@ def execute(c):
             r["pixels_ok"] = bool(got.shape == base.shape and np.array_equal(np.sort(got.reshape(got.shape[0], -1), axis=0), np.sort(base.reshape(base.shape[0], -1), axis=0), equal_nan=True))
             r["band_order_ok"] = bool(got.shape == base.shape and np.array_equal(got, base, equal_nan=True))
             r["transform_ok"] = bool(all(abs(a - b) <= 1e-9 * max(1.0, abs(b)) for a, b in zip(f.transform[:6], gb.affine[:6])))
-            r["crs_ok"] = bool(f.crs is not None and f.crs.to_epsg() == int(c.get("crs", "32633")))
+            cr = c.get("crs", "32633")
+            if cr in PROJ_CRS:
+                import pyproj
+                r["crs_ok"] = bool(f.crs is not None and pyproj.CRS.from_wkt(f.crs.to_wkt()) == pyproj.CRS(PROJ_CRS[cr]))
+            else:
+                r["crs_ok"] = bool(f.crs is not None and f.crs.to_epsg() == int(cr))
             nd = c["nodata"][0] if c["nodata"] else None
             r["nodata_ok"] = bool((f.nodata is None and nd is None) or (f.nodata is not None and nd is not None and float(f.nodata) == float(nd)))
         with tifffile.TiffFile(io.BytesIO(data)) as tf:
